@@ -935,29 +935,60 @@ NUL, and the second `vsnprintf` into the pool block of that size stores the comp
 theorem pool_printf_exact (out : Bytes) : printfAlloc out = (out.length + 1, out) := by
   unfold printfAlloc; simp
 
-/-- **child pools and user data**: setting user data (on the pool or on an attached child) frees the previous
-one and takes the new one; detaching hands it back; `iwpool_destroy` of a child unlinks that child only and frees
-its user data, its siblings stay attached (fixed `_parent_remove_child`); `iwpool_destroy` of the parent, once the
-last reference is dropped, frees the user data of every child still attached, then its own; while other
-references remain nothing is freed.  `held` = everything a final destroy would free. -/
+/-- **child pools, their references, orphans, user data** (`held` = the user data owned by some live pool of the
+family: the main pool, its attached children, the orphans).  For every state with distinct handles and every call,
+*(ids handed to free functions) + held after = held before (+ the id newly set)*:
+* attach: nothing moves;
+* `iwpool_destroy` through a child handle `c` (attached child or orphan): with more than one reference on that pool
+  it returns `false`, frees nothing and the pool stays where it is (an attached child stays attached); on the last
+  reference it returns `true` and frees exactly that pool's user data, siblings and the other orphans keep theirs
+  (fixed `_parent_remove_child`); an unknown handle changes nothing;
+* `iwpool_user_data_set` through a child handle frees that pool's previous user data and takes the new one;
+* `iwpool_ref` through a child handle moves nothing;
+* `iwpool_destroy` of the parent on its last reference frees exactly the user data of the children that nobody else
+  references (chain order) and then its own; the referenced children become orphans - each with one reference fewer
+  and its user data - next to the orphans there already are; no child stays attached, the main pool owns nothing
+  any more;
+* `iwpool_destroy` of the parent with references left only drops one. -/
 theorem pool_children_ownership (s : Pool.Sys) (ok : KidsOk s) (c id : Nat) :
     (held (Pool.attach s Pool.createEmpty).1 = held s ∧ KidsOk (Pool.attach s Pool.createEmpty).1) ∧
-    (KidsOk (destroyKid s c).1 ∧ (↑(destroyKid s c).2 : Multiset Nat) + held (destroyKid s c).1 = held s) ∧
+    (KidsOk (destroyKid s c).1 ∧ (↑(destroyKid s c).2.2 : Multiset Nat) + held (destroyKid s c).1 = held s ∧
+      (∀ q, lookup s c = some q → 1 < q.refs → (destroyKid s c).2 = (some false, []) ∧ held (destroyKid s c).1 = held s) ∧
+      (∀ q, lookup s c = some q → q.refs ≤ 1 → (destroyKid s c).2 = (some true, q.ud.toList)) ∧
+      (lookup s c = none → destroyKid s c = (s, none, []))) ∧
     (∀ s' f, kidUdSet s c id = some (s', f) → KidsOk s' ∧ (↑f : Multiset Nat) + held s' = held s + ↑[id]) ∧
-    (∀ s' f, Pool.destroy s = (s', some f) → (↑f : Multiset Nat) = held s ∧ s.main.refs ≤ 1) ∧
-    (∀ s', Pool.destroy s = (s', none) → held s' = held s ∧ 1 < s.main.refs) := by
-  refine ⟨⟨?_, kidsOk_attach s _ ok⟩, held_destroyKid s c ok, fun s' f h => held_kidUdSet s c id ok s' f h, ?_, ?_⟩
+    (∀ s' n, refKid s c = some (s', n) → KidsOk s' ∧ held s' = held s) ∧
+    (∀ s' f, Pool.destroy s = (s', some f) → s.main.refs ≤ 1 ∧ KidsOk s' ∧ (↑f : Multiset Nat) + held s' = held s ∧
+      f = kidsFreed s.kids ++ s.main.ud.toList ∧ s'.orphans = survivors s.kids ++ s.orphans ∧
+      heldK s.kids = ↑(kidsFreed s.kids) + heldK (survivors s.kids) ∧
+      (∀ h q, (h, q) ∈ survivors s.kids ↔ ∃ q0, (h, q0) ∈ s.kids ∧ 1 < q0.refs ∧ q = unref q0) ∧
+      s'.kids = [] ∧ s'.main.ud = none ∧ s'.gone = true) ∧
+    (∀ s', Pool.destroy s = (s', none) → held s' = held s ∧ KidsOk s' ∧ 1 < s.main.refs) := by
+  refine ⟨⟨?_, kidsOk_attach s _ ok⟩, ⟨(held_destroyKid s c ok).1, (held_destroyKid s c ok).2, ?_, ?_, destroyKid_nochild s c⟩,
+    fun s' f h => held_kidUdSet s c id ok s' f h, fun s' n h => held_refKid s c ok s' n h, ?_, ?_⟩
   · rw [held_attach]; show _ + (↑([] : List Nat) : Multiset Nat) = _; simp
+  · intro q hq hr
+    have e := destroyKid_result s c q hq
+    rw [if_pos hr] at e
+    refine ⟨e, ?_⟩
+    have hb := (held_destroyKid s c ok).2
+    rw [e] at hb
+    simpa using hb
+  · intro q hq hr
+    have e := destroyKid_result s c q hq
+    rw [if_neg (by omega)] at e
+    exact e
   · intro s' f h
-    refine ⟨held_destroy s s' f h, ?_⟩
-    unfold Pool.destroy at h; split at h
-    · simp at h
-    · omega
+    obtain ⟨hb, hk, hg, hf, ho, hgone⟩ := held_destroy s s' f h
+    refine ⟨?_, hk ok, hb, hf, ho, survivors_split s.kids, mem_survivors s.kids, ?_, ?_, hgone⟩
+    · unfold Pool.destroy at h; split at h
+      · simp at h
+      · omega
+    · exact (hg hgone).1
+    · exact (hg hgone).2
   · intro s' h
-    refine ⟨(destroy_unref s s' h).1, ?_⟩
-    unfold Pool.destroy at h; split at h
-    · assumption
-    · simp at h
+    obtain ⟨e, hk, _, hr⟩ := destroy_unref s s' h
+    exact ⟨e, hk ok, hr⟩
 
 example : splitTokens [32, 97, 32, 44, 44, 98, 44] [44] true = [[97], [], [98]] := by decide
 end POOL
@@ -1317,103 +1348,193 @@ theorem xs_ledger_held : ∀ (ops : List UdOp) (x : XStr.XStr),
       show (↑([] : List Nat) : Multiset Nat) + ↑x.ud.toList + ↑([] : List Nat) = ↑x.ud.toList + ↑([] : List Nat)
       ms_norm
 
-/-! ### `iwpool`: user data of the pool and of attached child pools -/
+/-! ### `iwpool`: user data of the pool, of attached child pools and of orphans -/
 
-/-- calls that move ownership around a pool: user data of the pool, child pools with their own user data,
-destroying a child early, extra references; `destroy` is `iwpool_destroy` on the parent -/
+/-- calls that move ownership around a pool family: user data of the main pool, child pools with their own user
+data and their own reference counts (`cref` = `iwpool_ref` on a child handle, `cdestroy` = `iwpool_destroy` on a
+child handle: an attached child or an orphan), extra references on the main pool; `destroy` is `iwpool_destroy`
+on the main pool -/
 inductive PoOp where
-  | ud (id : Nat) | detach | child (c : Pool.Pool) | cud (c id : Nat) | cdestroy (c : Nat) | ref | destroy
+  | ud (id : Nat) | detach | child (c : Pool.Pool) | cud (c id : Nat) | cref (c : Nat) | cdestroy (c : Nat) | ref | destroy
 
-/-- ledger of a pool history; it ends (`some`) with the `iwpool_destroy` that drops the last reference, which
-must be the last call; every earlier `destroy` only drops a reference -/
-def poLedger : List PoOp → Pool.Sys → Option (Ledger Nat)
-  | [], _ => none
-  | .ud id :: ops, s =>
-    (poLedger ops { s with main := (Pool.udSet s.main id).1 }).map (Ledger.add { taken := [id], freed := (Pool.udSet s.main id).2 })
-  | .detach :: ops, s =>
-    (poLedger ops { s with main := (Pool.udDetach s.main).1 }).map (Ledger.add { back := (Pool.udDetach s.main).2 })
-  | .child c :: ops, s => poLedger ops (Pool.attach s { c with ud := none }).1
-  | .cud c id :: ops, s =>
+/-- one call of a pool history: the next state and what the call takes over / frees / hands back.  Once the main
+pool is freed (`gone`) calls on it are not part of a history (they would be use-after-free): they are skipped;
+the child-handle calls go on working on the orphans. -/
+def poStep (s : Pool.Sys) : PoOp → Pool.Sys × Ledger Nat
+  | .ud id => if s.gone then (s, {}) else
+      ({ s with main := (Pool.udSet s.main id).1 }, { taken := [id], freed := (Pool.udSet s.main id).2 })
+  | .detach => if s.gone then (s, {}) else
+      ({ s with main := (Pool.udDetach s.main).1 }, { back := (Pool.udDetach s.main).2 })
+  | .child c => if s.gone then (s, {}) else ((Pool.attach s { c with ud := none }).1, {})
+  | .cud c id =>
     match Pool.kidUdSet s c id with
-    | none => poLedger ops s
-    | some (s', f) => (poLedger ops s').map (Ledger.add { taken := [id], freed := f })
-  | .cdestroy c :: ops, s => (poLedger ops (Pool.destroyKid s c).1).map (Ledger.add { freed := (Pool.destroyKid s c).2 })
-  | .ref :: ops, s => poLedger ops (Pool.ref s)
-  | .destroy :: ops, s =>
+    | none => (s, {})
+    | some (s', f) => (s', { taken := [id], freed := f })
+  | .cref c =>
+    match Pool.refKid s c with
+    | none => (s, {})
+    | some (s', _) => (s', {})
+  | .cdestroy c => ((Pool.destroyKid s c).1, { freed := (Pool.destroyKid s c).2.2 })
+  | .ref => if s.gone then (s, {}) else (Pool.ref s, {})
+  | .destroy => if s.gone then (s, {}) else
     match Pool.destroy s with
-    | (s', none) => poLedger ops s'
-    | (_, some f) => match ops with
-      | [] => some { freed := f }
-      | _ => none
+    | (s', none) => (s', {})
+    | (s', some f) => (s', { freed := f })
 
-theorem po_ledger_held : ∀ (ops : List PoOp) (s : Pool.Sys) (L : Ledger Nat), Pool.KidsOk s → poLedger ops s = some L →
-    (↑L.freed : Multiset Nat) + ↑L.back = ↑L.taken + Pool.held s := by
-  intro ops
-  induction ops with
-  | nil => intro s L _ h; simp [poLedger] at h
-  | cons op ops ih =>
-    intro s L ok h
-    cases op with
-    | ud id =>
-      simp only [poLedger, Option.map_eq_some_iff] at h
-      obtain ⟨L2, e2, rfl⟩ := h
-      have b2 := ih _ L2 (show Pool.KidsOk { s with main := (Pool.udSet s.main id).1 } from ok) e2
-      refine Ledger.add_balance _ L2 _ _ ?_ b2
-      show (↑s.main.ud.toList : Multiset Nat) + ↑([] : List Nat) + (Pool.heldK s.kids + ↑[id]) = Pool.heldK s.kids + ↑s.main.ud.toList + ↑[id]
+/-- the state after a history -/
+def poRun : List PoOp → Pool.Sys → Pool.Sys
+  | [], s => s
+  | op :: ops, s => poRun ops (poStep s op).1
+
+/-- every pool of the family has been freed: the main pool and all the orphans it left behind -/
+def poFinished (s : Pool.Sys) : Bool := s.gone && s.orphans.isEmpty
+
+/-- ledger of a pool history; it is defined (`some`) for the histories after which the whole family is gone: the
+main pool was destroyed on its last reference and every orphan by its last holder.  `iwpool_destroy` calls that
+only drop a reference, on the main pool or on a child, may come anywhere. -/
+def poLedger : List PoOp → Pool.Sys → Option (Ledger Nat)
+  | [], s => if poFinished s then some {} else none
+  | op :: ops, s => (poLedger ops (poStep s op).1).map (Ledger.add (poStep s op).2)
+
+/-- one call: (freed) + (handed back) + held after = held before + (taken), and the invariants go on -/
+theorem po_step_ledger (s : Pool.Sys) (op : PoOp) (ok : Pool.KidsOk s) (g : Pool.GoneOk s) :
+    Pool.KidsOk (poStep s op).1 ∧ Pool.GoneOk (poStep s op).1 ∧
+    (↑(poStep s op).2.freed : Multiset Nat) + ↑(poStep s op).2.back + Pool.held (poStep s op).1 =
+      Pool.held s + ↑(poStep s op).2.taken := by
+  have skip : Pool.KidsOk s ∧ Pool.GoneOk s ∧
+      (↑({} : Ledger Nat).freed : Multiset Nat) + ↑({} : Ledger Nat).back + Pool.held s = Pool.held s + ↑({} : Ledger Nat).taken := by
+    refine ⟨ok, g, ?_⟩
+    show (↑([] : List Nat) : Multiset Nat) + ↑([] : List Nat) + Pool.held s = Pool.held s + ↑([] : List Nat)
+    ms_norm
+  cases op with
+  | ud id =>
+    rw [poStep]
+    by_cases hg : s.gone = true
+    · rw [if_pos hg]; exact skip
+    · rw [if_neg hg]
+      refine ⟨ok, Pool.goneOk_of_alive _ (by simpa using hg), ?_⟩
+      show (↑s.main.ud.toList : Multiset Nat) + ↑([] : List Nat) + (Pool.heldK s.kids + ↑[id] + Pool.heldK s.orphans) =
+        Pool.heldK s.kids + ↑s.main.ud.toList + Pool.heldK s.orphans + ↑[id]
       ms_norm; abel
-    | detach =>
-      simp only [poLedger, Option.map_eq_some_iff] at h
-      obtain ⟨L2, e2, rfl⟩ := h
-      have b2 := ih _ L2 (show Pool.KidsOk { s with main := (Pool.udDetach s.main).1 } from ok) e2
-      refine Ledger.add_balance _ L2 _ _ ?_ b2
-      show (↑([] : List Nat) : Multiset Nat) + ↑s.main.ud.toList + (Pool.heldK s.kids + ↑([] : List Nat)) = Pool.heldK s.kids + ↑s.main.ud.toList + ↑([] : List Nat)
+  | detach =>
+    rw [poStep]
+    by_cases hg : s.gone = true
+    · rw [if_pos hg]; exact skip
+    · rw [if_neg hg]
+      refine ⟨ok, Pool.goneOk_of_alive _ (by simpa using hg), ?_⟩
+      show (↑([] : List Nat) : Multiset Nat) + ↑s.main.ud.toList + (Pool.heldK s.kids + ↑([] : List Nat) + Pool.heldK s.orphans) =
+        Pool.heldK s.kids + ↑s.main.ud.toList + Pool.heldK s.orphans + ↑([] : List Nat)
       ms_norm; abel
-    | child c =>
-      simp only [poLedger] at h
-      have b2 := ih _ L (Pool.kidsOk_attach s _ ok) h
-      rw [b2, Pool.held_attach]
-      show _ + (Pool.held s + ↑([] : List Nat)) = _
+  | child c =>
+    rw [poStep]
+    by_cases hg : s.gone = true
+    · rw [if_pos hg]; exact skip
+    · rw [if_neg hg]
+      refine ⟨Pool.kidsOk_attach s _ ok, Pool.goneOk_of_alive _ (show s.gone = false by simpa using hg), ?_⟩
+      show (↑([] : List Nat) : Multiset Nat) + ↑([] : List Nat) + Pool.held (Pool.attach s { c with ud := none }).1 = Pool.held s + ↑([] : List Nat)
+      rw [Pool.held_attach]
+      show _ + _ + (Pool.held s + ↑([] : List Nat)) = _
       ms_norm
-    | cud c id =>
-      simp only [poLedger] at h
-      cases hk : Pool.kidUdSet s c id with
-      | none => rw [hk] at h; exact ih s L ok h
-      | some p =>
-        obtain ⟨s', f⟩ := p
-        rw [hk] at h
-        simp only [Option.map_eq_some_iff] at h
-        obtain ⟨L2, e2, rfl⟩ := h
-        obtain ⟨ok', hb⟩ := Pool.held_kidUdSet s c id ok s' f hk
-        refine Ledger.add_balance _ L2 _ _ ?_ (ih s' L2 ok' e2)
-        show (↑f : Multiset Nat) + ↑([] : List Nat) + Pool.held s' = Pool.held s + ↑[id]
-        rw [← hb]; ms_norm
-    | cdestroy c =>
-      simp only [poLedger, Option.map_eq_some_iff] at h
-      obtain ⟨L2, e2, rfl⟩ := h
-      obtain ⟨ok', hb⟩ := Pool.held_destroyKid s c ok
-      refine Ledger.add_balance _ L2 _ _ ?_ (ih _ L2 ok' e2)
-      show (↑(Pool.destroyKid s c).2 : Multiset Nat) + ↑([] : List Nat) + Pool.held (Pool.destroyKid s c).1 = Pool.held s + ↑([] : List Nat)
+  | cud c id =>
+    rw [poStep]
+    cases hk : Pool.kidUdSet s c id with
+    | none => exact skip
+    | some p =>
+      obtain ⟨s', f⟩ := p
+      obtain ⟨ok', hb⟩ := Pool.held_kidUdSet s c id ok s' f hk
+      refine ⟨ok', Pool.goneOk_kidUdSet s c id g s' f hk, ?_⟩
+      show (↑f : Multiset Nat) + ↑([] : List Nat) + Pool.held s' = Pool.held s + ↑[id]
       rw [← hb]; ms_norm
-    | ref =>
-      simp only [poLedger] at h
-      exact ih (Pool.ref s) L (show Pool.KidsOk (Pool.ref s) from ok) h
-    | destroy =>
-      simp only [poLedger] at h
+  | cref c =>
+    rw [poStep]
+    cases hk : Pool.refKid s c with
+    | none => exact skip
+    | some p =>
+      obtain ⟨s', n⟩ := p
+      obtain ⟨ok', hb⟩ := Pool.held_refKid s c ok s' n hk
+      refine ⟨ok', Pool.goneOk_refKid s c g s' n hk, ?_⟩
+      show (↑([] : List Nat) : Multiset Nat) + ↑([] : List Nat) + Pool.held s' = Pool.held s + ↑([] : List Nat)
+      rw [hb]; ms_norm
+  | cdestroy c =>
+    rw [poStep]
+    obtain ⟨ok', hb⟩ := Pool.held_destroyKid s c ok
+    refine ⟨ok', Pool.goneOk_destroyKid s c g, ?_⟩
+    show (↑(Pool.destroyKid s c).2.2 : Multiset Nat) + ↑([] : List Nat) + Pool.held (Pool.destroyKid s c).1 = Pool.held s + ↑([] : List Nat)
+    rw [← hb]; ms_norm
+  | ref =>
+    rw [poStep]
+    by_cases hg : s.gone = true
+    · rw [if_pos hg]; exact skip
+    · rw [if_neg hg]
+      exact ⟨ok, Pool.goneOk_of_alive _ (show s.gone = false by simpa using hg), skip.2.2⟩
+  | destroy =>
+    rw [poStep]
+    by_cases hg : s.gone = true
+    · rw [if_pos hg]; exact skip
+    · rw [if_neg hg]
       cases hd : Pool.destroy s with
       | mk s' r =>
-        rw [hd] at h
         cases r with
         | none =>
-          obtain ⟨e, okf⟩ := Pool.destroy_unref s s' hd
-          rw [← e]; exact ih s' L (okf ok) h
+          obtain ⟨e, okf, hgone, _⟩ := Pool.destroy_unref s s' hd
+          refine ⟨okf ok, Pool.goneOk_of_alive _ (by rw [hgone]; simpa using hg), ?_⟩
+          show (↑([] : List Nat) : Multiset Nat) + ↑([] : List Nat) + Pool.held s' = Pool.held s + ↑([] : List Nat)
+          rw [e]; ms_norm
         | some f =>
-          cases ops with
-          | nil =>
-            simp only [Option.some.injEq] at h
-            rw [← h]
-            show (↑f : Multiset Nat) + ↑([] : List Nat) = ↑([] : List Nat) + Pool.held s
-            rw [Pool.held_destroy s s' f hd]; ms_norm
-          | cons _ _ => simp at h
+          obtain ⟨hb, okf, g', _⟩ := Pool.held_destroy s s' f hd
+          refine ⟨okf ok, g', ?_⟩
+          show (↑f : Multiset Nat) + ↑([] : List Nat) + Pool.held s' = Pool.held s + ↑([] : List Nat)
+          rw [← hb]; ms_norm
+
+/-- a finished family holds nothing -/
+theorem held_finished (s : Pool.Sys) (g : Pool.GoneOk s) (h : poFinished s = true) : Pool.held s = 0 := by
+  unfold poFinished at h
+  simp only [Bool.and_eq_true, List.isEmpty_iff] at h
+  obtain ⟨a, b⟩ := g h.1
+  unfold Pool.held
+  rw [a, b, h.2]
+  rfl
+
+/-- **pool histories**: over any sequence of calls on a pool family - user data set / detached on the main pool,
+children attached, user data set through child handles, references taken and dropped on the main pool and on
+children, children destroyed early, the parent destroyed while children are still referenced, orphans used and
+destroyed afterwards - that leaves no pool of the family alive: freed + handed back = taken + what the family held
+at the start.  Every owned element is freed exactly once; the user data of an orphan is freed by the destroy that
+drops the orphan's last reference, not by the parent's. -/
+theorem pool_history_balance : ∀ (ops : List PoOp) (s : Pool.Sys) (L : Ledger Nat), Pool.KidsOk s → Pool.GoneOk s →
+    poLedger ops s = some L → (↑L.freed : Multiset Nat) + ↑L.back = ↑L.taken + Pool.held s := by
+  intro ops
+  induction ops with
+  | nil =>
+    intro s L _ g h
+    unfold poLedger at h
+    split at h
+    · simp only [Option.some.injEq] at h
+      rw [← h, held_finished s g (by assumption)]
+      show (↑([] : List Nat) : Multiset Nat) + ↑([] : List Nat) = ↑([] : List Nat) + 0
+      ms_norm
+    · simp at h
+  | cons op ops ih =>
+    intro s L ok g h
+    simp only [poLedger, Option.map_eq_some_iff] at h
+    obtain ⟨L2, e2, rfl⟩ := h
+    obtain ⟨ok', g', hb⟩ := po_step_ledger s op ok g
+    exact Ledger.add_balance _ L2 _ _ hb (ih _ L2 ok' g' e2)
+
+/-- the ledger is defined exactly for the histories that leave no pool of the family alive -/
+theorem poLedger_isSome_iff (ops : List PoOp) (s : Pool.Sys) : (poLedger ops s).isSome = poFinished (poRun ops s) := by
+  induction ops generalizing s with
+  | nil => unfold poLedger poRun; split <;> simp_all
+  | cons op ops ih => simp only [poLedger, poRun, Option.isSome_map]; exact ih _
+
+/-- an orphan's user data outlives the parent: a history in which the parent is destroyed while child `0` is
+referenced frees the child's user data at the child's last destroy (after the parent's), and not before -/
+theorem pool_orphan_witness :
+    poLedger [.child Pool.createEmpty, .cud 0 7, .cref 0, .ud 9, .destroy, .cud 0 8, .cdestroy 0] { main := Pool.create 0 }
+      = some { taken := [7, 9, 8], freed := [9, 7, 8], back := [] } ∧
+    (poStep (poRun [.child Pool.createEmpty, .cud 0 7, .cref 0, .ud 9] { main := Pool.create 0 }) .destroy).2.freed = [9] ∧
+    poLedger [.child Pool.createEmpty, .cud 0 7, .cref 0, .ud 9, .destroy] { main := Pool.create 0 } = none := by
+  refine ⟨by rfl, by rfl, by rfl⟩
 
 /-! ### the global statement -/
 
@@ -1441,7 +1562,7 @@ def ledger : History κ α → Option (Ledger (Elem κ α))
 any hash function, key ownership mode and LRU bound; `iwlist`; user data of `iwxstr`; `iwpool` with user data,
 attached child pools (each with user data, possibly destroyed early) and extra references - the multiset of
 elements handed to the free callbacks equals the multiset of owned elements inserted and not handed back to the
-caller.  Nothing leaks (every taken element is freed or returned) and nothing is freed twice (multiplicities
+caller (for the pool: over any history after which the main pool and every orphan are gone).  Nothing leaks (every taken element is freed or returned) and nothing is freed twice (multiplicities
 agree). -/
 theorem freed_exactly_once [DecidableEq α] (H : History κ α) (L : Ledger (Elem κ α)) (hL : ledger H = some L) :
     (L.freed : Multiset (Elem κ α)) = (L.taken : Multiset (Elem κ α)) - (L.back : Multiset (Elem κ α)) ∧
@@ -1467,8 +1588,8 @@ theorem freed_exactly_once [DecidableEq α] (H : History κ α) (L : Ledger (Ele
       obtain ⟨L0, e, rfl⟩ := hL
       refine Ledger.Balanced.map _ ?_
       unfold Ledger.Balanced
-      rw [po_ledger_held ops _ L0 ⟨by simp, fun p hp => by simp at hp⟩ e]
-      show _ + (Pool.heldK [] + (↑([] : List Nat) : Multiset Nat)) = _
+      rw [pool_history_balance ops _ L0 ⟨by simp, fun p hp => by simp at hp⟩ (Pool.goneOk_of_alive _ rfl) e]
+      show _ + (Pool.heldK [] + (↑([] : List Nat) : Multiset Nat) + Pool.heldK []) = _
       simp [Pool.heldK]
   unfold Ledger.Balanced at hb
   exact ⟨by rw [← hb]; exact Multiset.add_sub_cancel_right.symm, hb⟩
@@ -1477,6 +1598,12 @@ theorem freed_exactly_once [DecidableEq α] (H : History κ α) (L : Ledger (Ele
 the child, one reference taken and dropped -/
 example : poLedger [.child Pool.createEmpty, .cud 0 7, .cud 0 8, .ud 9, .ref, .destroy, .destroy] { main := Pool.create 0 }
     = some { taken := [7, 8, 9], freed := [7, 8, 9], back := [] } := by rfl
+
+/-- two children, one referenced twice: the parent's destroy frees the unreferenced child's user data and its own,
+the orphan's goes with the third `cdestroy` -/
+example : poLedger [.child Pool.createEmpty, .child Pool.createEmpty, .cud 0 1, .cud 1 2, .ud 3, .cref 1, .cref 1, .cdestroy 1,
+      .destroy, .cdestroy 1, .cdestroy 1] { main := Pool.create 0 }
+    = some { taken := [1, 2, 3], freed := [1, 3, 2], back := [] } := by rfl
 
 end OWNED
 
